@@ -38,10 +38,10 @@ def _unwind(n):
         "persistent_calculate_checksum": n + 2, "persistent_writen": max(4, n) + 2,
         "memset": n + 3, "memcpy": 6,
         "m_read": rmax + 2, "m_write": rmax + 2,
-        "a_match": n + 2, "c10_current": n + 2, "dst_is": n + 2,
-        "c10_get_data": n + 2, "c10_data_is": n + 2, "c10_outside_same": msize + 2,
-        "c10_medium_same": msize + 2, "c10_load_medium": msize + 2,
-        "dst_guards_same": n + 6, "harness": msize + 2,
+        "a_match": n + 2, "c10_current": n + 2, "c10_same": n + 2,
+        "c10_get_data": n + 2, "c10_put_data": n + 2, "c10_data_is": n + 2, "c10_outside_same": msize + 2,
+        "c10_medium_same": msize + 2, "c10_snapshot": msize + 2, "c10_begin": msize + 2,
+        "dst_guards_same": n + 6, "scenario": msize + 2, "harness": max(6, n + 3),
     }
 
 
